@@ -6,7 +6,7 @@ import (
 	"crypto/ecdsa"
 	"crypto/ed25519"
 	"crypto/elliptic"
-	"crypto/rand"
+	crand "crypto/rand"
 	"crypto/sha256"
 	"crypto/tls"
 	"crypto/x509"
@@ -16,6 +16,8 @@ import (
 	"encoding/json"
 	"fmt"
 	"math/big"
+	"math/rand"
+	"os"
 	"strconv"
 	"strings"
 	"sync"
@@ -62,7 +64,7 @@ func newTestCA(cn string, seedByte byte) testCA {
 		KeyUsage:              x509.KeyUsageDigitalSignature | x509.KeyUsageCertSign,
 		BasicConstraintsValid: true,
 	}
-	der, err := x509.CreateCertificate(rand.Reader, tpl, tpl, priv.Public(), priv)
+	der, err := x509.CreateCertificate(crand.Reader, tpl, tpl, priv.Public(), priv)
 	if err != nil {
 		panic(err)
 	}
@@ -82,14 +84,14 @@ func (ca testCA) verifies(c *x509.Certificate) error {
 
 // signLeaf issues an arbitrary leaf directly (for shapes pki.GenerateCertificate cannot produce).
 func (ca testCA) signLeaf(subject pkix.Name, pub any) []byte {
-	sn, _ := rand.Int(rand.Reader, new(big.Int).Lsh(big.NewInt(1), 100))
+	sn, _ := crand.Int(crand.Reader, new(big.Int).Lsh(big.NewInt(1), 100))
 	tpl := &x509.Certificate{
 		SerialNumber: sn, Subject: subject,
 		NotBefore: time.Now().Add(-time.Minute), NotAfter: time.Now().AddDate(1, 0, 0),
 		ExtKeyUsage: []x509.ExtKeyUsage{x509.ExtKeyUsageClientAuth}, KeyUsage: x509.KeyUsageDigitalSignature,
 		BasicConstraintsValid: true,
 	}
-	der, err := x509.CreateCertificate(rand.Reader, tpl, ca.x509, pub, ca.cert.PrivateKey)
+	der, err := x509.CreateCertificate(crand.Reader, tpl, ca.x509, pub, ca.cert.PrivateKey)
 	if err != nil {
 		panic(err)
 	}
@@ -383,9 +385,9 @@ func (e *pkiEnv) runCase(c certCase) (o certOutcome) {
 	case "self-signed-v2":
 		tpl := &x509.Certificate{SerialNumber: big.NewInt(7), Subject: specpki.MakeSubjectV2(c.ID, hashPub[:]), NotBefore: time.Now().Add(-time.Minute), NotAfter: time.Now().AddDate(1, 0, 0),
 			ExtKeyUsage: []x509.ExtKeyUsage{x509.ExtKeyUsageClientAuth}, KeyUsage: x509.KeyUsageDigitalSignature | x509.KeyUsageCertSign, BasicConstraintsValid: true, IsCA: c.Variant%2 == 0}
-		der, _ = x509.CreateCertificate(rand.Reader, tpl, tpl, pub, priv)
+		der, _ = x509.CreateCertificate(crand.Reader, tpl, tpl, pub, priv)
 	case "ca-v2-ecdsa-leaf":
-		ek, _ := ecdsa.GenerateKey(elliptic.P256(), rand.Reader)
+		ek, _ := ecdsa.GenerateKey(elliptic.P256(), crand.Reader)
 		der = e.ca.signLeaf(specpki.MakeSubjectV2(c.ID, hashPub[:]), &ek.PublicKey)
 	case "ca-malformed-subject":
 		cn := []string{"v2:123", "v3:1:" + pkiSubject(pub), "", "hello", "v2", "V2:1:" + pkiSubject(pub), "v2;1;x", " v2:1:x"}[c.Variant]
@@ -490,11 +492,8 @@ func TestC32(t *testing.T) {
 	tokenKey := map[string]string{}     // identity token -> key
 	batch := workers() * 2
 	gen := genCertCase()
-	ev.RapidCheck(t, 5, 200, func(t *rapid.T) {
-		cs := make([]certCase, batch)
-		for i := range cs {
-			cs[i] = gen.Draw(t, fmt.Sprintf("case%d", i))
-		}
+	runBatch := func(t fataler, cs []certCase) {
+		t.Helper()
 		outs := make([]certOutcome, len(cs))
 		var wg sync.WaitGroup
 		sem := make(chan struct{}, workers())
@@ -530,5 +529,56 @@ func TestC32(t *testing.T) {
 			}
 		}
 		failAll(t, rec, fs)
+	}
+	if p := ev.ReplayPath(); strings.HasSuffix(p, ".json") {
+		raw, err := os.ReadFile(p)
+		if err != nil {
+			t.Fatalf("replay file: %v", err)
+		}
+		var doc struct {
+			Case struct {
+				Case certCase `json:"case"`
+			} `json:"case"`
+		}
+		if err := json.Unmarshal(raw, &doc); err != nil || doc.Case.Case.Op == "" {
+			t.Fatalf("replay file: not a C32 case description (%v)", err)
+		}
+		runBatch(t, []certCase{doc.Case.Case})
+		return
+	}
+	if ev.ReplayPath() == "" {
+		// every certificate class with a valid proof by its own key and by another key, and every
+		// proof class on issuance, are visited in every run whatever the seed
+		r := rand.New(rand.NewSource(ev.ShardSeed() + 5))
+		mk := func(op, cert, proof string) certCase {
+			var a, b [8]byte
+			r.Read(a[:])
+			r.Read(b[:])
+			return certCase{KeySeed: hex.EncodeToString(a[:]), OtherSeed: hex.EncodeToString(b[:]), Op: op, Cert: cert, Proof: proof,
+				ID: r.Uint64() >> uint(r.Intn(64)), Variant: r.Intn(8), Org: r.Intn(4) == 0}
+		}
+		var cs []certCase
+		seen := map[string]bool{}
+		for _, cc := range certClasses {
+			if seen[cc] {
+				continue
+			}
+			seen[cc] = true
+			cs = append(cs, mk("renew", cc, "own-key"), mk("renew", cc, "other-key"))
+		}
+		for _, pc := range []string{"own-key", "own-key-client", "bad:difficulty-17", "bad:expired", "bad:subject-of-other-key", "bad:signature", "bad:none", "bad:too-far"} {
+			cs = append(cs, mk("issue", "", pc))
+		}
+		for _, pc := range []string{"own-key-client", "other-key-client", "bad:difficulty-17", "bad:subject-of-other-key"} {
+			cs = append(cs, mk("renew", "issued", pc))
+		}
+		runBatch(t, cs)
+	}
+	ev.RapidCheck(t, 4, 200, func(t *rapid.T) {
+		cs := make([]certCase, batch)
+		for i := range cs {
+			cs[i] = gen.Draw(t, fmt.Sprintf("case%d", i))
+		}
+		runBatch(t, cs)
 	})
 }
